@@ -35,7 +35,8 @@ def build(P, rs, name="sdm", spelling=0, modules=False):
                    lambda: (-fout) + fin + (-fo2)][spelling % 5]()
     s2.initial_value = 0.0
     s2.equation = [lambda: bf + fout, lambda: 1.0 * bf + fout, lambda: fout + bf * 1.0, lambda: 2.0 * bf + fout - bf,
-                   lambda: 0.5 * (bf + fout) + (fout + bf) / 2.0, lambda: fout - (-bf), lambda: 3 * fout + bf - 2 * fout][spelling % 7]()
+                   lambda: 0.5 * (bf + fout) + (fout + bf) / 2.0, lambda: fout - (-bf), lambda: 3 * fout + bf - 2 * fout,
+                   lambda: 1.123456789 * (bf + fout) - 0.123456789 * (bf + fout)][spelling % 8]()      # (the last one: literals with ten significant digits)
     points = [[f(x), f(y)] for x, y in P["pts"]]
     m.points["tab"] = points
     # functions of elements written directly in a stock's equation, in several spellings of the same mathematics
